@@ -5,6 +5,6 @@ S=/tmp/sbx-seed-$ID-$$
 "$HERE/tools/mksandbox.sh" $S >/dev/null || exit 2
 git -C $S/repo apply "$HERE/seeded/$ID/patch.diff" || { echo "patch does not apply"; "$HERE/tools/rmsandbox.sh" $S; exit 2; }
 ( cd $S/verif && VERIF_REPO=$S/repo timeout 3000 ./check $P $T > $S/out.txt 2>&1; echo "exit=$?" >> $S/out.txt )
-grep -E "VIOLATION|KNOWN-FINDING|failing input|no longer checks|exit=|OK$" $S/out.txt | cut -c1-400
+grep -E "^VIOLATION|^failing input|^no longer checks|exit=| -> (OK|VIOLATION)$" $S/out.txt | cut -c1-300
 mkdir -p "$HERE/.build/seeded-logs"; cp $S/out.txt "$HERE/.build/seeded-logs/$ID-$P-$T.txt"
 "$HERE/tools/rmsandbox.sh" $S
